@@ -12,6 +12,7 @@ import (
 	"fmt"
 	"os"
 	"path/filepath"
+	"runtime/debug"
 	"sort"
 	"strings"
 	"sync"
@@ -327,4 +328,45 @@ func JSON(v any) string {
 		return "!json:" + err.Error()
 	}
 	return string(b)
+}
+
+// PanicInfo describes a recovered panic.
+type PanicInfo struct {
+	Value string
+	// Site is the innermost grafana/cog function on the panicking stack.
+	Site  string
+	Stack string
+}
+
+// CatchStack runs f and returns a description of the recovered panic (nil if none).
+func CatchStack(f func()) (p *PanicInfo) {
+	defer func() {
+		if r := recover(); r != nil {
+			st := string(debug.Stack())
+			p = &PanicInfo{Value: fmt.Sprint(r), Stack: st, Site: cogSite(st)}
+		}
+	}()
+	f()
+	return nil
+}
+
+func cogSite(stack string) string {
+	lines := strings.Split(stack, "\n")
+	seenPanic := false
+	for _, l := range lines {
+		if strings.HasPrefix(l, "panic(") {
+			seenPanic = true
+			continue
+		}
+		if !seenPanic || strings.HasPrefix(l, "\t") {
+			continue
+		}
+		if strings.Contains(l, "github.com/grafana/cog/") && !strings.Contains(l, "/verifx/") {
+			if i := strings.LastIndex(l, "("); i > 0 {
+				l = l[:i]
+			}
+			return strings.TrimPrefix(l, "github.com/grafana/cog/")
+		}
+	}
+	return "?"
 }
